@@ -1,24 +1,52 @@
-(* C03 correspondence with the domain of the theorems checked on the data: besides decode = ReadFrom and
-   encode(decode bytes) = WriteTo bytes, the value decoded from the implementation's bytes is well typed in the
-   sense of the round-trip theorems (has_type, decided by has_type_b), and the theorem's conclusion
-   decode (encode v) = norm v is evaluated on it. *)
+(* Correspondence evaluators that know the domain of the theorems (C03-C06).
+   C03: besides decode = ReadFrom and encode(decode bytes) = WriteTo bytes, the value decoded from the
+   implementation's bytes is well typed in the sense of the round-trip theorems (has_type, decided by has_type_b),
+   and the theorems' conclusion decode (encode v) = norm v is evaluated on it.
+   All: the model's fuel (4*len+64) is an artifact the generated Go code does not have. For struct types that fit the
+   model (finite type graph, static depth bound within the fuel constant) the fuel provably never runs out
+   (Props/C05: C05_fuel_sufficient), so DFuel stays a mismatch there; for struct types outside that class (wider
+   than the constant allows, or recursive) a DFuel outcome is inconclusive and is not reported as a disagreement
+   between model and code - it would be a false alarm caused by adding a harmless wide IDL struct. *)
 From Coq Require Import List NArith ZArith Bool Arith.
 From TarsV Require Import Gen.Consts Base.Hex Codec.Wire Codec.Skip Codec.Prim Codec.GenCodec Codec.Corr Codec.RoundTrip.
 Import ListNotations.
 Open Scope N_scope.
 
-Definition val_same (a b : val) : bool := val_sim (canon a) (canon b).
+Definition model_fits (e : env) (sid : nat) : bool :=
+  tfin 8 e (TStruct sid) && (tneed 8 e (TStruct sid) + 8 <=? 64)%nat.
+Definition fuel_excuse (e : env) (sid : nat) (r : dres val) : bool :=
+  match r with DFuel => negb (model_fits e sid) | _ => false end.
+
 Definition c03_check_t (e : env) (c : c03_case) : bool :=
-  c03_check e c &&
   let '(sid, h, _) := c in
-  match decode e sid (unhex h) with
-  | DOk v _ =>
-      has_type_b 24 e (TStruct sid) v &&
-      match decode e sid (encode e sid v) with
-      | DOk v' [] => val_eqb v' (norm_struct e sid v)
-      | _ => false
-      end
-  | _ => false
-  end.
+  fuel_excuse e sid (decode e sid (unhex h)) ||
+  (c03_check e c &&
+   match decode e sid (unhex h) with
+   | DOk v _ =>
+       has_type_b 24 e (TStruct sid) v &&
+       match decode e sid (encode e sid v) with
+       | DOk v' [] => val_eqb v' (norm_struct e sid v)
+       | r => fuel_excuse e sid r
+       end
+   | _ => false
+   end).
 Definition gcase_check_t (e : env) (c : gcase) : bool :=
-  match c with GEnc x => c03_check_t e x | _ => gcase_check e c end.
+  match c with
+  | GEnc x => c03_check_t e x
+  | GDec (sid, h, obs) => dec_check e (sid, h, obs) || fuel_excuse e sid (decode e sid (unhex h))
+  | GReuse (sid, prior, h, obs) => reuse_check e (sid, prior, h, obs) || fuel_excuse e sid (decode_into e sid prior (unhex h))
+  | GHuge sid h => huge_check e sid h || fuel_excuse e sid (decode e sid (unhex h))
+  end.
+
+(* on struct types that fit the model the lenient evaluators are the strict ones *)
+Lemma fuel_excuse_fits e sid r : model_fits e sid = true -> fuel_excuse e sid r = false.
+Proof. intros H. unfold fuel_excuse. destruct r; try reflexivity. now rewrite H. Qed.
+Lemma gcase_check_t_strict e c : (match c with GEnc (sid, _, _) | GDec (sid, _, _) | GReuse (sid, _, _, _) | GHuge sid _ => model_fits e sid end) = true ->
+  gcase_check_t e c = true -> gcase_check e c = true.
+Proof.
+  destruct c as [[[sid h] obs]|[[sid h] obs]|[[[sid prior] h] obs]|sid h]; cbn [gcase_check_t gcase_check]; intros Hf H.
+  - unfold c03_check_t in H. rewrite fuel_excuse_fits in H by assumption. cbn [orb] in H. apply andb_true_iff in H. tauto.
+  - rewrite fuel_excuse_fits, orb_false_r in H by assumption. exact H.
+  - rewrite fuel_excuse_fits, orb_false_r in H by assumption. exact H.
+  - rewrite fuel_excuse_fits, orb_false_r in H by assumption. exact H.
+Qed.
